@@ -174,8 +174,43 @@ func R05() Rule {
 					}
 				}
 			}
+			// use after transfer: once the table is constructed the message belongs to it (guarded by
+			// the table lock, which this RPC does not hold): it must not be read any more — not even to
+			// copy it for the response
+			var transfer ssa.Instruction
+			for _, ci := range core.AllCalls(fn) {
+				if ci.IsFunc(core.PkgBttest, "newTable") {
+					transfer = ci.Instr
+				}
+			}
+			if transfer != nil {
+				for _, b := range fn.Blocks {
+					for _, in := range b.Instrs {
+						if in == transfer || !core.InstrReaches(transfer, in) {
+							continue
+						}
+						used := false
+						switch x := in.(type) {
+						case ssa.CallInstruction:
+							for _, a := range x.Common().Args {
+								if isGiven(a) || derived[a] {
+									used = true
+								}
+							}
+						case *ssa.FieldAddr:
+							if isGiven(x.X) || derived[x.X] {
+								used = true
+							}
+						}
+						if used && !bad {
+							bad = true
+							c.Bad("R05", core.FuncName(fn)+"/reads-given-away-state", in.Pos(), "the message handed to newTable is read after the table was constructed from it: from then on it is the table's definition, guarded by the table lock, and a concurrent ModifyColumnFamilies writes its family map while it is being read here (fatal concurrent map access)")
+						}
+					}
+				}
+			}
 			if !bad {
-				c.Ok("R05", core.FuncName(fn)+"/ownership-transfer", fn.Pos(), true, "nothing derived from the message given to newTable flows into the response")
+				c.Ok("R05", core.FuncName(fn)+"/ownership-transfer", fn.Pos(), true, "nothing derived from the message given to newTable flows into the response or is read after the hand-over")
 			}
 		}
 	}}
